@@ -482,7 +482,7 @@ def check_flat_and_fcse(run, repo):
         run.violation('C15-F', fi.relpath, fi.qualname, 'FCSE', 'MVA must be PID:VA[24:0] when VA[31:25] == 0, else VA: %s' % r[0])
 
 
-def check_compose(run, repo):
+def check_compose(run, repo, want_outcomes=False):
     calls = []
 
     def mk(name, ret):
@@ -566,6 +566,8 @@ def check_compose(run, repo):
                 ok = False
                 run.violation('C15-V', fi.relpath, fi.qualname, 'walked address', 'the table walk must use the FCSE-modified address')
     run.instance('C15-V', 'translate_address_v', obligations=6, ok=ok, sample={'function': fi.qualname, 'calls': [c[0] for c in calls]})
+    if want_outcomes:
+        return list(m.it.outcomes)
 
 
 def check_ld_loop(run, repo):
